@@ -6,14 +6,14 @@ use crate::spec::*;
 use std::collections::BTreeSet;
 
 pub mod common;
-//pub mod c06;
+pub mod c06;
 pub mod c07;
-//pub mod c09;
-//pub mod c10;
-//pub mod c11;
-//pub mod c12;
-//pub mod c13;
-//pub mod c18;
+pub mod c09;
+pub mod c10;
+pub mod c11;
+pub mod c12;
+pub mod c13;
+pub mod c18;
 
 pub struct StepOut {
     pub obs: Obs,
@@ -79,14 +79,14 @@ pub trait Prop: Sync {
 
 pub fn all() -> Vec<Box<dyn Prop>> {
     vec![
-        //Box::new(c06::C06),
+        Box::new(c06::C06),
         Box::new(c07::C07),
-        //Box::new(c09::C09),
-        //Box::new(c10::C10),
-        //Box::new(c11::C11),
-        //Box::new(c12::C12),
-        //Box::new(c13::C13),
-        //Box::new(c18::C18),
+        Box::new(c09::C09),
+        Box::new(c10::C10),
+        Box::new(c11::C11),
+        Box::new(c12::C12),
+        Box::new(c13::C13),
+        Box::new(c18::C18),
     ]
 }
 
